@@ -474,13 +474,21 @@ impl ProcfsHandle {
         subpath: P,
         oflags: F,
     ) -> Result<File, Error> {
-        let mut oflags = oflags.into();
+        self.open_with_retry(base, subpath.as_ref(), oflags.into(), true)
+    }
+
+    fn open_with_retry(
+        &self,
+        base: ProcfsBase,
+        subpath: &Path,
+        mut oflags: OpenFlags,
+        may_retry: bool,
+    ) -> Result<File, Error> {
         // Force-set O_NOFOLLOW.
         oflags.insert(OpenFlags::O_NOFOLLOW);
 
         // Do a basic lookup.
         let basedir = self.open_base(base)?;
-        let subpath = subpath.as_ref();
         let fd = self
             .resolver
             .resolve(&basedir, subpath, oflags, ResolverFlags::empty())
@@ -489,14 +497,22 @@ impl ProcfsHandle {
                 Ok(fd)
             })
             .or_else(|err| {
-                if self.is_subset && err.kind() == ErrorKind::OsError(Some(libc::ENOENT)) {
+                if may_retry
+                    && self.is_subset
+                    && err.kind() == ErrorKind::OsError(Some(libc::ENOENT))
+                {
                     // If the lookup failed due to ENOENT, and the current
                     // procfs handle is "masked" in some way, try to create a
                     // temporary unmasked handle and retry the operation.
+                    //
+                    // The retry is done exactly once: the "unmasked" handle
+                    // can itself be masked (an unprivileged caller on a
+                    // hidepid= /proc can only get the host mount), and must
+                    // not recurse into creating yet another handle.
                     Self::new_unmasked()
                         // Use the old error if creating a new handle failed.
                         .or(Err(err))?
-                        .open(base, subpath, oflags)
+                        .open_with_retry(base, subpath, oflags, false)
                         .map(OwnedFd::from)
                 } else {
                     Err(err)
